@@ -300,6 +300,7 @@ def run(shard, ctx):
                     state = {}
 
                     def fill(cmd, resp=resp, state=state):
+                        resp = state.get("resp", resp)  # the device's answer may change between two executions of one command
                         events.append(("execute", id(cmd), None))
                         state["in_id"], state["out_id"] = id(cmd.datain), id(cmd.dataout)
                         if cmd.datain is not None and len(cmd.datain) and resp:
@@ -426,6 +427,23 @@ def run(shard, ctx):
                                 if not same(cmd.result, expect):
                                     ctx.fail("C13:%s.stale_result_after_re_execution" % c.facade,
                                              "the command object was executed again (same answer from the device) after its result had been edited in place: the result is not the decode of the device's bytes", wit)
+                                # ... and once more with another answer (a reservation released, a medium changed): nothing of the
+                                # earlier answer survives in the result
+                                for _again in range(2):
+                                    state["resp"] = response_for(c, full, rng)
+                                    for i in range(len(cmd.datain)):
+                                        cmd.datain[i] = 0  # what a caller polling with one command object does before re-issuing it
+                                    dev.execute(cmd)
+                                    try:
+                                        expect2 = sent.unmarshall_datain(bytearray(state["left"]), **unmarshall_kwargs(c, full))
+                                    except Exception:  # noqa: BLE001
+                                        break
+                                    cmd.unmarshall(**unmarshall_kwargs(c, full))
+                                    ctx.count("re_executions_with_another_answer")
+                                    if not same(cmd.result, expect2):
+                                        ctx.fail("C13:%s.result_mixes_answers" % c.facade,
+                                                 "the same command object executed again with another answer from the device: the result is not the decode of the bytes the device left this time", wit)
+                                        break
                         except Exception as e:  # noqa: BLE001
                             ctx.fail("C13:%s.re_execution_raises.%s" % (c.facade, type(e).__name__), "re-executing / re-decoding the returned command raised %s" % e, wit, exc=e)
     finally:
